@@ -464,3 +464,154 @@ package moss
 //@   requires collOK(m) && rv != nil
 //@   modifies fields(rv)
 //@   ensures @zeroMeansEmpty rv.CurDirtySegments == 0 ==> treeEmpty(m.stackDirtyTop) && treeEmpty(m.stackDirtyMid) && treeEmpty(m.stackDirtyBase)
+
+// ---- ReadOnly never touches the directory (C18) ---------------------------------------------------
+// readOnlyMode() is a ghost constant: the ReadOnly option in force for the
+// store under consideration.  Every primitive that can change the directory
+// requires it to be false; opening a file requires the O_RDONLY flag (0)
+// when it is true.
+
+// The options of a store never change after openStore built it.
+//@ immutable Store.options, StoreOptions.CollectionOptions.ReadOnly
+
+//@ func os.Remove
+//@   trusted operating system primitive
+//@   requires @notReadOnly !readOnlyMode()
+
+//@ func StoreOptions.OpenFile
+//@   requires @readOnlyFlag readOnlyMode() ==> flag == 0
+
+//@ func removeFiles(dir string, fnames []string) error
+//@   props C18
+//@   attr obligations call-requires
+//@   attr only-labels notReadOnly readOnlyFlag
+//@   requires @notReadOnly !readOnlyMode()
+//@   loop 1: invariant true
+
+//@ func ReadFooter(options *StoreOptions, file File) (*Footer, error)
+//@   trusted reads the file through the handle it is given (see C05 for the scan itself); allocates the footer
+
+//@ func checkHeader(file File) error
+//@   trusted reads the first page through the handle it is given
+
+//@ func openStore(dir string, options StoreOptions) (*Store, error)
+//@   props C18
+//@   attr obligations call-requires
+//@   attr only-labels notReadOnly readOnlyFlag
+//@   requires @modeLinked readOnlyMode() == options.CollectionOptions.ReadOnly
+//@   modifies *
+//@   loop 1: invariant options.CollectionOptions.ReadOnly == readOnlyMode()
+//@   loop 2: invariant options.CollectionOptions.ReadOnly == readOnlyMode()
+
+//@ func os.OpenFile
+//@   trusted operating system primitive
+//@   requires @readOnlyFlag readOnlyMode() ==> flag == 0
+
+//@ func openStore$1(name string, flag int, perm os.FileMode) (File, error)
+//@   props C18
+//@   attr obligations call-requires
+//@   attr only-labels notReadOnly readOnlyFlag
+//@   requires readOnlyMode() ==> flag == 0
+
+//@ func (s *Store) createNextFileLOCKED() (string, File, error)
+//@   props C18
+//@   attr obligations call-requires
+//@   attr only-labels notReadOnly readOnlyFlag
+//@   requires @notReadOnly !readOnlyMode()
+//@   modifies *
+
+//@ func (s *Store) startFileLOCKED() (*FileRef, File, error)
+//@   props C18
+//@   attr obligations call-requires
+//@   attr only-labels notReadOnly readOnlyFlag
+//@   requires @notReadOnly !readOnlyMode()
+//@   modifies *
+
+//@ func (s *Store) startOrReuseFile() (fref *FileRef, file File, err error)
+//@   props C18
+//@   attr obligations call-requires
+//@   attr only-labels notReadOnly readOnlyFlag
+//@   requires @notReadOnly !readOnlyMode()
+//@   modifies *
+
+//@ func (s *Store) removeFileOnClose(fref *FileRef) (os.FileInfo, error)
+//@   props C18
+//@   attr obligations call-requires
+//@   attr only-labels notReadOnly readOnlyFlag
+//@   requires @notReadOnly !readOnlyMode()
+//@   modifies *
+
+//@ func (s *Store) removeFileOnClose$1()
+//@   props C18
+//@   attr obligations call-requires go-requires
+//@   attr only-labels notReadOnly readOnlyFlag
+//@   attr at-creation
+//@   requires @notReadOnly !readOnlyMode()
+//@   modifies *
+
+//@ func (s *Store) removeFileOnClose$1$1()
+//@   props C18
+//@   attr obligations call-requires
+//@   attr only-labels notReadOnly readOnlyFlag
+//@   requires @notReadOnly !readOnlyMode()
+//@   modifies *
+
+//@ func (s *Store) compact(footer *Footer, partialCompactStart int, higher Snapshot, persistOptions StorePersistOptions) error
+//@   props C18
+//@   attr obligations call-requires
+//@   attr only-labels notReadOnly readOnlyFlag
+//@   requires @notReadOnly !readOnlyMode()
+//@   modifies *
+
+//@ func (s *Store) compactMaybe(higher Snapshot, persistOptions StorePersistOptions) (bool, error)
+//@   props C18
+//@   attr obligations call-requires
+//@   attr only-labels notReadOnly readOnlyFlag modeLinked
+//@   requires @modeLinked s != nil && s.options != nil && readOnlyMode() == s.options.CollectionOptions.ReadOnly
+//@   modifies *
+
+//@ func (s *Store) persist(higher Snapshot, persistOptions StorePersistOptions) (Snapshot, error)
+//@   props C18
+//@   attr obligations call-requires
+//@   attr only-labels notReadOnly readOnlyFlag modeLinked
+//@   requires @modeLinked s != nil && s.options != nil && readOnlyMode() == s.options.CollectionOptions.ReadOnly
+//@   modifies *
+
+//@ func (s *Store) Persist(higher Snapshot, persistOptions StorePersistOptions) (Snapshot, error)
+//@   props C18
+//@   attr obligations call-requires
+//@   attr only-labels notReadOnly readOnlyFlag modeLinked
+//@   requires s != nil && s.options != nil && readOnlyMode() == s.options.CollectionOptions.ReadOnly
+//@   modifies *
+
+//@ func OpenStore(dir string, options StoreOptions) (*Store, error)
+//@   props C18
+//@   attr obligations call-requires
+//@   attr only-labels notReadOnly readOnlyFlag modeLinked
+//@   requires readOnlyMode() == options.CollectionOptions.ReadOnly
+//@   modifies *
+
+//@ func (s *Store) snapshotRevert(revertTo Snapshot) error
+//@   props C18
+//@   attr obligations call-requires
+//@   attr only-labels notReadOnly readOnlyFlag modeLinked
+//@   requires s != nil && s.options != nil && readOnlyMode() == s.options.CollectionOptions.ReadOnly
+//@   modifies *
+
+// The background persister (which hands snapshots to LowerLevelUpdate) and the
+// merger only run on collections that are not ReadOnly.
+//@ func (m *collection) runPersister()
+//@   trusted body covered by the C13/C16 contracts
+//@   requires @notReadOnly !readOnlyMode()
+//@   modifies *
+//@ func (m *collection) runMerger()
+//@   trusted body covered by the C01/C16 contracts
+//@   requires @notReadOnly !readOnlyMode()
+//@   modifies *
+
+//@ func (m *collection) Start() error
+//@   props C18
+//@   attr obligations call-requires go-requires
+//@   attr only-labels notReadOnly readOnlyFlag
+//@   requires m != nil && m.options != nil && readOnlyMode() == m.options.ReadOnly
+//@   modifies *
